@@ -14,6 +14,7 @@ ENC = z3.Function('cv_imencode_jpg', Pix, Bytes)                    # jpg encodi
 DEC = z3.Function('cv_imdecode', Bytes, z3.IntSort(), Pix)          # (blob, imread flag) -> pixels
 RAW = z3.Function('c_order_bytes', Pix, Bytes)                      # bytearray(memoryview(array))
 UNRAW = z3.Function('frombuffer_reshape', Bytes, Pix)               # np.frombuffer(b, uint8).reshape(shape)
+MEMK = z3.Function('memory_order_bytes', Pix, Bytes)                # bytes in MEMORY order (ravel(order='K'/'A'), .data of a strided array): differs from RAW unless C-contiguous
 
 CV = dict(COLOR_RGB2BGR=4, COLOR_BGR2RGB=4, COLOR_BGR2GRAY=6, COLOR_RGB2GRAY=7, COLOR_GRAY2BGR=8, COLOR_GRAY2RGB=8, IMREAD_COLOR=1, IMREAD_GRAYSCALE=0)
 
@@ -22,8 +23,8 @@ def zbv(v):
     return z3.BoolVal(v) if isinstance(v, bool) else v
 
 
-def new_array(ex, shape, pix, writeable=True, origin='given'):
-    a = Obj('ndarray', shape=tuple(shape), pix=pix, origin=origin)
+def new_array(ex, shape, pix, writeable=True, origin='given', contig=True):
+    a = Obj('ndarray', shape=tuple(shape), pix=pix, origin=origin, contig=contig)
     a.f['flags'] = Obj('flags', writeable=writeable, arr=a)
     ex.__dict__.setdefault('arrays', []).append(a)
     return a
@@ -47,6 +48,38 @@ class NdArrayModel:
         ex.__dict__.setdefault('np_calls', []).append(('reshape', o, tuple(shape)))
         o2 = new_array(ex, tuple(shape), o.f['pix'], o.f['flags'].f['writeable'], 'reshape')
         return o2
+
+    @staticmethod
+    def _bytes(ex, o, order):
+        """the byte string of the array in the given order: logical C order, or memory order (== C order only for a C-contiguous array)"""
+        if order == 'C' or o.f['contig'] is True:
+            return RAW(o.f['pix'])
+        c = o.f['contig']
+        return MEMK(o.f['pix']) if c is False else z3.If(c, RAW(o.f['pix']), MEMK(o.f['pix']))
+
+    @staticmethod
+    def m_ravel(ex, o, order='C'):
+        return Obj('flatview', of=o, bytes=NdArrayModel._bytes(ex, o, 'C' if order == 'C' else 'K'))
+
+    m_flatten = m_ravel
+
+    @staticmethod
+    def m_tobytes(ex, o, order='C'):
+        return blob(ex, NdArrayModel._bytes(ex, o, 'C' if order == 'C' else 'K'), fresh_bool('raw_starts_like_jpg'), kind='bytes')
+
+    @staticmethod
+    def p_data(ex, o):
+        return Obj('flatview', of=o, bytes=NdArrayModel._bytes(ex, o, 'K'))
+
+
+class FlatViewModel:
+    @staticmethod
+    def p_data(ex, o):
+        return o
+
+    @staticmethod
+    def m_tobytes(ex, o, *a):
+        return blob(ex, o.f['bytes'], fresh_bool('raw_starts_like_jpg'), kind='bytes')
 
 
 class FlagsModel:
@@ -93,6 +126,8 @@ class NpModel:
         ex.__dict__.setdefault('np_calls', []).append(('frombuffer', b))
         if isinstance(b, Obj) and b.cls == 'blob':
             return Obj('bufview', blob=b)
+        if isinstance(b, Obj) and b.cls == 'flatview':
+            return Obj('bufview', blob=blob(ex, b.f['bytes'], fresh_bool('raw_starts_like_jpg'), kind='bytearray'))
         raise Unsupported(f'np.frombuffer({b!r})')
 
     @staticmethod
@@ -161,11 +196,13 @@ def b_bytearray(ex, v=None):
         return blob(ex, RAW(v.f['pix']), fresh_bool('raw_starts_like_jpg'), kind='bytearray')
     if isinstance(v, Obj) and v.cls == 'blob':
         return blob(ex, v.f['bytes'], v.f['is_jpg'], v.f['h'], v.f['w'], v.f['ch'], kind='bytearray')
+    if isinstance(v, Obj) and v.cls == 'flatview':
+        return blob(ex, v.f['bytes'], fresh_bool('raw_starts_like_jpg'), kind='bytearray')
     raise Unsupported(f'bytearray({v!r})')
 
 
 def install(ex):
-    ex.models.update(ndarray=NdArrayModel, flags=FlagsModel, blob=BlobModel, blobhead=BlobHeadModel, np=NpModel, cv2=Cv2Model, bufview=BufViewModel)
+    ex.models.update(flatview=FlatViewModel, ndarray=NdArrayModel, flags=FlagsModel, blob=BlobModel, blobhead=BlobHeadModel, np=NpModel, cv2=Cv2Model, bufview=BufViewModel)
     nd = Obj('ndarray_type', isinstance=lambda ex_, v: isinstance(v, Obj) and v.cls == 'ndarray')
     ex.modules_ndarray = nd
     orig = ex.isinstance_hook
